@@ -202,7 +202,12 @@ def build_generated_cases(cs, rng, n, hist):
             incl = rng.random() < 0.9
             uname = name if rng.random() < 0.7 else name + " " + K.g_name(rng)
             pe = {"name": uname, "depth": depth, "incl": incl, "attrs": attrs, "desc": desc, "mode": mode}
+            if rng.random() < 0.5:     # one opaque term: slash, '$', '^', '#' are ordinary characters of a non-tag name
+                k = rng.randint(1, len(uname))
+                uname = uname[:k] + rng.choice(["/", "/", "$", "^", "#", "%", "(", "=", "*"]) + uname[k:]
+                pe["name"] = uname
             cs.add("went", pe, ["went", mode, K.sx_s(uname), depth, incl, K.sx_attrs(attrs), K.sx_desc(desc)])
+            cs.add("oke", pe, ["ok", K.sx_s(uname), K.sx_attrs(attrs), K.sx_desc(desc)])
         for m in (0, 1, 2, 3):
             if m == 0 or rng.random() < 0.3:
                 cs.add("fmt", {"mode": m, "attrs": attrs, "gen": True, "wide": wide}, ["fmt", m, K.sx_attrs(attrs)])
@@ -232,6 +237,16 @@ def build_generated_cases(cs, rng, n, hist):
         if rng.random() < 0.5:
             raw = rng.choice(["", " ", "  ", "\t", "\u00a0", "\u3000"]) + raw + rng.choice(["", " ", "\n", "\u00a0 "])
         cs.add("xmld", {"text": raw}, ["xmld", K.sx_s(raw)])
+        if rng.random() < 0.3:
+            order, tl = K.gen_tree_lines(rng)
+            cs.add("rebuild", {"lines": tl, "order": order}, ["rebuild", [[a, b] for a, b in tl]])
+        if rng.random() < 0.5:
+            is_tag = rng.random() < 0.4
+            xn = ("Par/" if is_tag and rng.random() < 0.6 else "") + name
+            if not is_tag and rng.random() < 0.7:
+                k = rng.randint(0, len(xn))
+                xn = xn[:k] + rng.choice(["/", "/", "$", "^", " ", "#", "/#"]) + xn[k:]
+            cs.add("xmlname", {"is_tag": is_tag, "name": xn}, ["xmlname", is_tag, K.sx_s(xn)])
         if rng.random() < 0.4:
             nm_raw = name if rng.random() < 0.5 else rng.choice(["", " "] + K.EXOTIC_WS) + name + rng.choice([" "] + K.EXOTIC_WS)
             cs.add("xmln", {"text": nm_raw}, ["xmln", K.sx_s(nm_raw)])
@@ -374,6 +389,22 @@ def check_case(kind, p, m, res, stats):
         if im != mo:
             return corr(f"lines impl={im} model={mo}")
         return False
+    if kind == "rebuild":
+        im = K.impl_rebuild(p["lines"])
+        mo = ["exn", m[1]] if m[0] == "exn" else ["ok", [[int(x) for x in n] for n in m[1]]]
+        if im != mo:
+            return corr(f"rebuilt names impl={im} model={mo}")
+        return False
+    if kind == "xmlname":
+        im = K.impl_xml_name_text(p["is_tag"], p["name"])
+        if not p["is_tag"] and im != p["name"]:
+            # property-level: the independent XML reader must see the original name of a non-tag entry
+            res.report("xml-name-element", {"name": p["name"], "kind": "unit"}, f"the XML writer puts {im!r} into the name element")
+            return True
+        mo = K.un_s(m)
+        if im != mo:
+            return corr(f"xml name element impl={im!r} model={mo!r}")
+        return False
     if kind == "xmln":
         im = K.impl_xml_name(p["text"])
         mo = K.un_s(m)
@@ -433,6 +464,9 @@ def check_case(kind, p, m, res, stats):
     if kind == "ok":
         p["flags"] = [x == "1" for x in m]
         return False
+    if kind == "oke":
+        p["eflags"] = [x == "1" for x in m]
+        return False
     if kind == "trav":
         im = K.traversal_canon_impl(K.impl_traverse(p["fake"], p["merged"]), p["maps"])
         mo = K.traversal_canon_model(m)
@@ -478,7 +512,7 @@ def theorem_transfer(items, res, stats):
         elif kind == "ok":
             if p is not last_w or "back" not in p:
                 continue
-            name_ok, wattr_ok, desc_ok, attr_ok, _ = p["flags"]
+            name_ok, wattr_ok, desc_ok, attr_ok = p["flags"][:4]
             if name_ok and wattr_ok and desc_ok and p.get("row_free") and p["tag"] == p["tag"].split("/")[-1]:
                 stats["wiki_in_class"] += 1
                 strip = p["mode"] == 1
@@ -487,8 +521,17 @@ def theorem_transfer(items, res, stats):
                 if p["back"] != want:
                     res.report("wiki-line-roundtrip", {"tag": p["tag"], "level": p["level"], "attrs": p["attrs"], "desc": p["desc"]},
                                f"line={p['line']!r} read={p['back']} want={want}")
-        elif kind == "fmt" and "back" in p and p.get("gen"):
-            pass
+        elif kind == "oke" and "back" in p and "eflags" in p:
+            # wiki_entry_line_roundtrip replayed on the implementation
+            _, wattr_ok, desc_ok, _, _, ename_ok = p["eflags"]
+            if ename_ok and wattr_ok and desc_ok and p["incl"] and p.get("row_free"):
+                stats["wiki_entry_in_class"] = stats.get("wiki_entry_in_class", 0) + 1
+                strip = p["mode"] == 1
+                want_at = {k: v for k, v in p["attrs"].items() if not (strip and k == "inLibrary")}
+                want = ["ok", False, p["depth"], p["name"], [[k, v] for k, v in want_at.items()], p["desc"]]
+                if p["back"] != want:
+                    res.report("wiki-entry-line-roundtrip", {"name": p["name"], "depth": p["depth"], "attrs": p["attrs"], "desc": p["desc"]},
+                               f"line={p['line']!r} read={p['back']} want={want}")
     # attr_roundtrip: needs the attr_ok flag; computed with the python mirror below
     for kind, p, _ in items:
         if kind == "fmt" and "back" in p:
@@ -604,7 +647,7 @@ def run_e2e(tier, rng, res, hist):
     except ImportError:
         return {"cases": 0, "nontrivial": 0, "samples": [], "summary": {"missing": True}}
     try:
-        cases = list(E.CORPUS) + E.gen_cases(rng, tier) + E.gen_histories(rng, tier)
+        cases = [{"kind": "multilib", "tier": tier}] + list(E.CORPUS) + E.gen_cases(rng, tier) + E.gen_histories(rng, tier)
     except Exception as e:  # noqa -- the generator needs every bundled schema to load
         res.report("bundled-schema-loads", {"stage": "edit generation"}, f"{type(e).__name__}: {str(e)[:300]}")
         cases = [{"kind": "bundled", "schema": f} for f in E.bundled()]
@@ -635,8 +678,16 @@ def run_e2e(tier, rng, res, hist):
                 res.violation("harness-error", case, f["detail"], no_input=True)
             else:
                 res.report(f["clause"], case, f["detail"], fid=f.get("fid"))
-    for f in E.run_multilib():
-        res.report(f.get("clause", "multi-library-refuses"), {"e2e": f.get("case")}, f.get("detail", ""), fid=None)
+    # tie of Model/Traversal.v merged_library: the library header of every legal multi-library merge
+    merges = [m for o in outs for m in o.get("merges", [])]
+    if merges and hist.get("model_ok", True):
+        exe = C.build_driver("c05")
+        mo = C.run_driver(exe, [C.to_sx(["mergelib", [K.sx_s(x) for x in m["members"]]]) for m in merges])
+        for m, r in zip(merges, mo):
+            if K.un_s(r[0]) != m["library"]:
+                res.violation("correspondence", {"kind": "mergelib", "merge": m["tag"]},
+                              f"library header impl={m['library']!r} model={K.un_s(r[0])!r}", no_input=True)
+    summary["multilib_merges"] = len(merges)
     summary["roundtrips"] = rts
     return {"cases": len(cases), "nontrivial": nontrivial, "samples": [str(c)[:200] for c in cases[:2]], "summary": summary}
 
